@@ -19,7 +19,7 @@ Definition spec (which : Z) (c : case) (tr : list (list out)) : bool :=
   else if which =? 2 then S02 (c_cfg c) st
   else if which =? 3 then S03 (c_cfg c) st
   else if which =? 4 then S04 (c_cfg c) (nowin c) st
-  else if which =? 12 then S12 st
+  else if which =? 12 then S12 st && ((c_tail c <? 0) || S12_recovers (Z.to_nat (c_tail c)) st)
   else if which =? 13 then S13 (c_cfg c) st
   else if which =? 17 then S17c (c_cfg c) st && S17t st
   else true.
